@@ -62,7 +62,7 @@ verus! {
 pub assume_specification<T, U, F: FnOnce(T) -> U>[ Option::<T>::map_or ](o: Option<T>, d: U, f: F) -> (r: U)
     requires o is Some ==> f.requires((o->Some_0,)),
     ensures o is None ==> r == d, o is Some ==> f.ensures((o->Some_0,), r);
-pub assume_specification<T: Default>[ std::mem::take ](x: &mut T) -> (r: T) ensures r == *old(x);
+pub assume_specification<T: Default>[ std::mem::take ](x: &mut T) -> (r: T) ensures r == *old(x), call_ensures(T::default, (), *final(x));
 // core's reflexive `impl<T> From<T> for T`
 pub assume_specification<T>[ <T as From<T>>::from ](t: T) -> (r: T) ensures r == t;
 pub assume_specification<T: Clone>[ <[T]>::to_vec ](s: &[T]) -> (r: Vec<T>)
